@@ -56,7 +56,17 @@ func c01FamilyCase(c *explore.Ctx, s *explore.SubStats, f *gen.Family, n, limit 
 		var err error
 		var nilDoc bool
 		t0 := time.Now()
-		r := guarded(budget, 0, func() {
+		// under a (non-zero) limit the recursion depth is bounded by the limit, whatever the input
+		// size (same bound as C16); a negative limit admits no token at all
+		depthBound := 0
+		if limit != 0 {
+			lb := limit
+			if lb < 0 {
+				lb = 0
+			}
+			depthBound = c16DepthBound(lb)
+		}
+		r := guarded(budget, depthBound, func() {
 			src := &ast.Source{Input: text, Name: "f"}
 			if entry == "query" {
 				var d *ast.QueryDocument
@@ -108,8 +118,8 @@ func c01FamilyCase(c *explore.Ctx, s *explore.SubStats, f *gen.Family, n, limit 
 }
 
 func c01Families(c *explore.Ctx) {
-	s := c.Sub("families", fmt.Sprintf("%d adversarial size families × n = 2^0 … (unlimited: ≤ 64 KiB; limits {1,16,1024,65536}: ≤ %s)", len(gen.ParseFamilies), map[bool]string{false: "1 MiB", true: "8 MiB"}[c.Thorough()]),
-		"both parsers return normally (worker death = crash), error locations inside the input, steps ≤ 20000+240·bytes (linear), wall < 60 s",
+	s := c.Sub("families", fmt.Sprintf("%d adversarial size families × n = 2^0 … (unlimited: ≤ 64 KiB; limits {−1,1,16,1024,65536}: ≤ %s)", len(gen.ParseFamilies), map[bool]string{false: "1 MiB", true: "8 MiB"}[c.Thorough()]),
+		"both parsers return normally (worker death = crash), error locations inside the input, steps ≤ 20000+240·bytes (linear), under a limit call depth ≤ 200+70·max(L,0), wall < 60 s",
 		"every case (each is a distinct (family, n, limit))")
 	if s == nil {
 		return
@@ -122,7 +132,7 @@ func c01Families(c *explore.Ctx) {
 	idx := 0
 	for fi := range gen.ParseFamilies {
 		f := &gen.ParseFamilies[fi]
-		for _, limit := range []int{0, 1, 16, 1024, 65536} {
+		for _, limit := range []int{0, -1, 1, 16, 1024, 65536} {
 			maxBytes := 64 << 10
 			if limit != 0 {
 				maxBytes = maxLimited
